@@ -21,7 +21,7 @@ enum Re {
 }
 
 // multi-byte characters included: lengths are compared in bytes by the engine, in characters by a careless rewrite
-const ALPHA: [char; 10] = ['a', 'b', 'c', 'd', '/', '.', '0', 'B', 'é', '日'];
+const ALPHA: [char; 12] = ['a', 'b', 'c', 'd', '/', '.', '0', 'B', 'é', '日', ' ', '#'];
 
 fn gen(rng: &mut Rng, depth: usize, syntax: char) -> Re {
     let leaf = depth == 0 || rng.chance(2, 5);
